@@ -66,7 +66,11 @@ func diffSnapshots(before, after []Snapshot) string {
 	return ""
 }
 
-func execOpAPI(c *Case) Observation {
+func execOpAPI(c *Case) Observation { return execOpAPISpare(c, false) }
+
+// execOpAPISpare: with spare, the input list is a prefix of a longer buffer whose spare capacity holds stale tensors of an
+// earlier use (an int64 axes-like tensor and copies of the inputs): omitted trailing optional inputs are absent all the same.
+func execOpAPISpare(c *Case, spare bool) Observation {
 	ins, outs := ioNames(c)
 	node, err := mkNode(c.Op, c.Attrs, ins, outs)
 	if err != nil {
@@ -75,6 +79,19 @@ func execOpAPI(c *Case) Observation {
 	inputs, err := mkInputs(c)
 	if err != nil {
 		return Observation{Kind: "harness", Note: err.Error()}
+	}
+	if spare {
+		buf := make([]tensor.Tensor, len(inputs), len(inputs)+10)
+		copy(buf, inputs)
+		full := buf[:cap(buf)]
+		for i := len(inputs); i < len(full); i++ {
+			if k := i - len(inputs); k%2 == 1 && len(inputs) > 0 && inputs[k%len(inputs)] != nil {
+				full[i] = inputs[k%len(inputs)].Clone().(tensor.Tensor)
+			} else {
+				full[i] = tensor.New(tensor.WithShape(1), tensor.WithBacking([]int64{0}))
+			}
+		}
+		inputs = buf
 	}
 	before := snapshotAll(inputs)
 	obs := guard(func() Observation {
@@ -251,6 +268,9 @@ func execOpCase(c *Case) []ModeResult {
 		}
 	}
 	var out []ModeResult
+	if r := execTiled(c); r != nil {
+		out = append(out, *r)
+	}
 	for _, m := range modes {
 		switch m {
 		case "api":
@@ -259,6 +279,8 @@ func execOpCase(c *Case) []ModeResult {
 			if o.Kind == "value" {
 				o2 := execOpAPITwice(c)
 				out = append(out, ModeResult{"api:same-tensors-twice", Verdict(c, o2), o2.Short()})
+				o6 := execOpAPISpare(c, true)
+				out = append(out, ModeResult{"api:spare-capacity", Verdict(c, o6), o6.Short()})
 			}
 			if len(c.Same) == 0 {
 				// operands that are equal tensors may be the very same object (Gemm(X, X), Add(v, v), ...)
@@ -328,6 +350,9 @@ func execHelperCase(c *Case) []ModeResult {
 		return []ModeResult{{"helper", "harness:" + o.Note, ""}}
 	}
 	out := []ModeResult{{"helper", Verdict(c, o), o.Short()}}
+	if r := execTiled(c); r != nil {
+		out = append(out, *r)
+	}
 	if r := execHelperRefilled(c); r != nil {
 		out = append(out, *r)
 	}
